@@ -37,6 +37,14 @@ pub enum CKKSCompositionError {
         pt_log_delta: usize,
         pt_max_k: usize,
     },
+    /// A product needs its ciphertext operands stored compactly: `size == ceil(effective_k / base2k)`
+    /// (call `ckks_compact_limbs` on the operand first).
+    OperandNotCompact {
+        op: &'static str,
+        effective_k: usize,
+        base2k: usize,
+        limbs: usize,
+    },
     /// A multiplication would consume more semantic precision than available.
     MultiplicationPrecisionUnderflow {
         op: &'static str,
@@ -92,6 +100,16 @@ impl fmt::Display for CKKSCompositionError {
                 "{op} cannot align plaintext with ciphertext: ct.log_budget + pt.log_delta = {} but pt.max_k = {pt_max_k} (ct.log_budget={ct_log_budget}, pt.log_delta={pt_log_delta})",
                 ct_log_budget + pt_log_delta
             ),
+            Self::OperandNotCompact {
+                op,
+                effective_k,
+                base2k,
+                limbs,
+            } => write!(
+                f,
+                "{op} needs a compact operand: effective_k={effective_k} needs {} limbs of {base2k} bits but the ciphertext has {limbs}; call ckks_compact_limbs first",
+                effective_k.div_ceil(*base2k)
+            ),
             Self::MultiplicationPrecisionUnderflow {
                 op,
                 lhs_log_budget,
@@ -119,6 +137,19 @@ pub(crate) fn checked_log_budget_sub(op: &'static str, available_log_budget: usi
         }
         .into()
     })
+}
+
+pub(crate) fn ensure_compact(op: &'static str, effective_k: usize, base2k: usize, limbs: usize) -> Result<()> {
+    if effective_k.div_ceil(base2k) != limbs {
+        return Err(CKKSCompositionError::OperandNotCompact {
+            op,
+            effective_k,
+            base2k,
+            limbs,
+        }
+        .into());
+    }
+    Ok(())
 }
 
 pub(crate) fn ensure_base2k_match(op: &'static str, ct_base2k: usize, pt_base2k: usize) -> Result<()> {
